@@ -20,6 +20,9 @@ LABELS = ["RG1", "RG2", "RG3", "LK1", "LK2", "AA1", "AA2", "FA1", "FA2", "FA3", 
 FUNCTIONS = ["resolve_ident_core", "lookup", "apply_args_to_closure", "arity_gate", "fallback_decide", "relation_frame_gate"]
 RLIMIT = 80
 
+# types this unit replaces by a shim wherever they occur (also in the signatures of callees that R9-auto declares)
+TYPE_MAP = {"HashSet<Ident>": "IdentSet"}
+
 ASSUMED = [
     {"what": "opaque external types", "keys": ["pub struct Opaque"]},
     {"what": "pr::Ident is the real struct (path, name); HashSet<Ident> is the shim IdentSet (ghost view ISet<Ident>; len / extend / take-one as a set); "
@@ -348,6 +351,10 @@ REJECT = [
     "from a\njoin b (==id)\nselect {a.x}\nselect {a.x, b.*}\n",
     "from a\njoin b (==id)\naggregate {n = count this}\nselect {n, b}\n",
     "from a\njoin b (==id)\nselect {a.x}\nselect {b.y}\n",
+    # a computed (path-less) column of one side and a plain column of the other side with the same name: a bare reference is ambiguous
+    "from orders\ngroup {customer_id} (aggregate {total = sum amount})\njoin (from refunds | select {customer_id, total}) (==customer_id)\nselect {orders.customer_id, total}\n",
+    # a range argument must not put `start` / `end` into scope as if they were columns
+    "from x\nselect {a}\nfilter (a | in 1..5) && start > 2\n",
 ]
 
 
